@@ -4,6 +4,10 @@
     bounded / former witnesses).  All three defect classes found for C07 were repaired in /repo and are excluded
     nowhere: branch_edge_order (be4ff6e), ring_edge_order (dd9a0c2), pct_marker_then_digit (b681517).  No class
     of C07 is open.  What is proved:
+      - THE FULL STATEMENT, unbounded: [C07_full] (at the end of this file)
+            forall g tr, wf_C07 g = true -> ring_contract g (dfs_tree g) tr = true -> roundtrip_code g tr = 0
+        on the writer model composed with the reader component's model; [C07_roundtrip_wf] is the same with the
+        isomorphism stated semantically ([graph_iso]);
       - unbounded: [C07_roundtrip] (wave 4, below) for every plain connected graph, rings included, no pattern
         excluded; the complete round trip for path graphs of any length ([C07_path_roundtrip]); the writer
         half for path graphs ([C07_write_path]) and for every chain-shaped
@@ -28,7 +32,7 @@ From CGV Require Import Dialect.DialectImpl Reader.ReaderImpl Reader.Grammar.
 From CGV Require Import Write.TreeDefs Write.TreeWrite Write.TreeTables Write.DfsProofs Write.WfFacts Write.ConnFacts Write.TreeRead
      Write.TreeRound Write.RingDefs Write.RingWrite Write.RingTables Write.RingMarkers Write.RingClose Write.RingRead Write.RingRound.
 From CGV Require Import Reader.Lin.
-From CGV Require Import Write.GraphOps Write.FlatMachine Write.FullMachine Write.FullRound Write.ContractBridge Write.FullDomain.
+From CGV Require Import Write.GraphOps Write.FlatMachine Write.FullMachine Write.FullRound Write.ContractBridge Write.FullDomain Write.GraphStruct Write.FullCode.
 Import ListNotations.
 Open Scope Z_scope.
 
@@ -243,6 +247,27 @@ Proof. exact FullDomain.C07_roundtrip_wf. Qed.
 Theorem C07_base_attrs : forall s, base_attrs s = [(S "fragname", VStr s); (S "charge", VFlt (S "0.0")); (S "weight", VFlt (S "1.0"))].
 Proof. reflexivity. Qed.
 
+(** THE FULL STATEMENT of C07 in the check's own terms: for EVERY graph of the domain [wf_C07] and every ring
+    transcript honouring [ring_contract], the executable clause the check evaluates per case holds --
+    [roundtrip_code g tr = 0]: the writer model returns, the reader model accepts its text, and the graph read back is
+    isomorphic to the input under the numbering "order of writing" ([iso_by] on the observed node-name and
+    edge-order lists: equal numbers of nodes and of edges, injective, names and orders preserved).  From
+    [C07_roundtrip_explicit] (the reader's graph is the replay of a well-formed log of node/edge additions), the
+    structure of such a replay ([replay_struct]: a well-formed graph whose node list is the log's) and a count of
+    unordered pairs ([nodup_edges_le]).  No hypothesis besides the domain and the contract. *)
+Theorem C07_full : forall g tr, wf_C07 g = true -> ring_contract g (dfs_tree g) tr = true -> roundtrip_code g tr = 0%nat.
+Proof. exact FullCode.C07_full. Qed.
+(** the graph a well-formed log of additions builds: well formed, nodes in the order of the log *)
+Theorem C07_replay_struct : forall L G seen, GWo G -> (forall z, has_node G z = memz z seen) -> log_wf seen L ->
+  GWo (replay L G) /\ node_keys (replay L G) = node_keys G ++ log_nodes L.
+Proof. exact replay_struct. Qed.
+(** G.edges lists no unordered pair twice, on every well-formed graph *)
+Theorem C07_edges_list_nodup : forall G, graph_wf G = true -> nodup_edges (edges_list G) = true.
+Proof. exact edges_list_nodup. Qed.
+
+Print Assumptions C07_full.
+Print Assumptions C07_replay_struct.
+Print Assumptions C07_edges_list_nodup.
 Print Assumptions C07_roundtrip_wf.
 Print Assumptions C07_roundtrip_contract.
 Print Assumptions C07_roundtrip.
